@@ -18,7 +18,8 @@ META = {
             "= at least one module and >= 4 node kinds; distinct = hash of "
             "the normalised spec.",
     "reach": {"oracle_comparisons": 300, "#boundary_classes": 55,
-              "#build_routes": 25, "generations:3": 100},
+              "#build_routes": 25, "generations:3": 100, "resave_after_edit": 100,
+              "resave_after_edit:aux-container-edited-through-kept-reference": 30},
     "assumptions": [
         "snapshot() reads public attributes only; equality of snapshots is "
         "the meaning of 'identical observable content'",
@@ -37,7 +38,8 @@ def check_spec(ctx, case, gt, sp, generations=2):
     rnd = case.rnd
     want = gspec.normalize(sp)
     stats = {}
-    ir, nodes = irbuild.build(sp, gt, rnd, stats)
+    ir, nodes, builder = irbuild.build(sp, gt, rnd, stats,
+                                       want_builder=True)
     for k in stats:
         ctx.seen("build_routes", k)
         ctx.count("build:" + k, stats[k])
@@ -106,6 +108,31 @@ def check_spec(ctx, case, gt, sp, generations=2):
                 % (g + 2, d[0]), {"diffs": d})
         raw_prev, ir_prev = rawn, irn
         ctx.count("generations:%d" % (g + 2))
+    # the IR is saved, then edited through public attributes and through
+    # references the caller kept, then saved again: the second file must
+    # describe the IR as it is now (save keeps no hidden state)
+    if rnd.random() < 0.5:
+        sp2, edits = irbuild.mutate_live(rnd, gt, sp, nodes,
+                                         builder.aux_values,
+                                         rnd.randint(1, 4))
+        if edits:
+            for e in edits:
+                ctx.count("resave_after_edit:" + e)
+            ctx.count("resave_after_edit")
+            want2 = gspec.normalize(sp2)
+            rawb = irio.save(ir)
+            irb = irio.load(gt, rawb)
+            d = contract.diff(want2, irbuild.snapshot(irb, gt))
+            if d:
+                raise Discrepancy(
+                    "C01", "save-after-edit:" + irio.general_path(d[0]),
+                    "an IR saved, edited (%s) and saved again: the second "
+                    "file does not describe the edited IR: %s"
+                    % (", ".join(sorted(set(edits))), d[0]), {"diffs": d})
+            if not ir.deep_eq(irb) or not irb.deep_eq(ir):
+                raise Discrepancy("C01", "save-after-edit:deep_eq",
+                                  "edited IR and its reloaded second save "
+                                  "are not deep_eq", {})
     return ir, nodes, raw, ir2
 
 
